@@ -38,6 +38,34 @@ def kind_tests(f, variant):
     return out
 
 
+def d_first_content_line(chk, F):
+    """Whether a block is a single-line block (`>>` entry, `=` section) is a property of its first NON-EMPTY line: next_block
+    skips blank / comment-only lines by pulling again, and the `is_single_line` it then reads must belong to the line pulled last —
+    the value read merges every pull_line that can precede it (the initial one and the one in the skipping loop)."""
+    fs = [g for g in F.funcs.values() if g.key.endswith("::next_block") and "parser::PullParser" in g.key and not g.is_closure()]
+    if len(fs) != 1:
+        chk.fail("anchor-missing", "next_block", "", f"anchor-missing: PullParser::next_block found {len(fs)} times")
+        return
+    f = fs[0]
+    reads = []
+    for i, j, st in f.iter_stmts():
+        rv = st.get("rv", {})
+        op = rv.get("op") if rv.get("k") == "use" else (rv.get("x") if rv.get("k") == "un" else None)
+        p = (op or {}).get("copy") or (op or {}).get("move")
+        if p and p["p"] and p["p"][-1] == ".is_single_line":
+            reads.append((i, st, p))
+    chk.floor("C14.D-first-content-line", "reads of LineInfo.is_single_line in next_block", len(reads), 1, f"{f.file}:{f.line}")
+    skips = [b for b, t in f.calls() if (callee_key(t) or "").endswith("::pull_line") and any(b in scc for scc in f.sccs())]
+    for i, st, p in reads:
+        base = resolve_place(f, {"l": p["l"], "p": [x for x in p["p"][:-1]]})
+        n = sum(1 for nn in walk(base) if nn[0] == "call" and nn[1].endswith("::pull_line"))
+        # pull_line calls inside a loop from which this read is reachable = the blank-line skipping loop
+        before = [b for b in skips if i in f.reach_from(b)]
+        chk.expect(n >= 2 or not before, "C14.D-first-content-line", "next_block|is_single_line of the last pulled line", f"{f.file}:{st.get('line')}",
+                   "next_block decides single-line vs multi-line from a line it pulled BEFORE skipping blank lines: a `>>` entry after a blank / comment-only line "
+                   "would swallow the following step in the full parse only", sample=f"{f.file}:{st.get('line')}: is_single_line of φ(all preceding pull_line results)")
+
+
 def d_accept(chk, F):
     """Without front matter (old_style_metadata = true) the metadata-only scanner reports EVERY `>>` entry; so the full parser's
     acceptance test of a `>>` line (the filter in parse_block) may answer `false` only where old_style_metadata is known to
@@ -284,6 +312,7 @@ def run(chk: harness.Check):
                sample=f"{f.file}:{f.line}: every Some(entry) of metadata_entry is passed to bp.event")
     d_line_start(chk, F, f)
     d_accept(chk, F)
+    d_first_content_line(chk, F)
     # the metadata scanner handles front matter like the full one: the queued front matter event is popped first
     nm = [g for g in F.funcs.values() if g.key.endswith("::next_metadata") and not g.is_closure()]
     nx = [g for g in F.funcs.values() if g.key == "cooklang::<parser::PullParser<T> as std::iter::Iterator>::next"]
